@@ -457,4 +457,82 @@ def Op.setsMeta (j : Bool) : Op → Bool
   | .setVer i _ => i == j
   | _ => false
 
+/-! ### deepening round 5: mitmproxy's OWN decoder functions transcribed; the libraries shrink to `Lib` -/
+
+/-- the function a `custom_decode` entry is bound to (table `decodeFn` generated from `f.__name__`) -/
+inductive DecFn
+  | identity | gzip | deflate | brotli | zstd
+  deriving DecidableEq, Repr
+
+def decFnOfCode : Nat → Option DecFn
+  | 0 => some .identity
+  | 1 => some .gzip
+  | 2 => some .deflate
+  | 3 => some .brotli
+  | 4 => some .zstd
+  | _ => none
+
+/-- `custom_decode[n]` for a lower-cased name (none = KeyError, the `codecs` module is asked instead) -/
+def decFnOf (n : Bytes) : Option DecFn := (decodeFn.lookup n).bind decFnOfCode
+
+/-- mitmproxy's `identity` / `decode_gzip` / `decode_deflate` / `decode_brotli` / `decode_zstd`, given the outcome of
+    the library calls they make on `x` (`none` = the library raised):
+    `lib1` = `zlib.decompressobj(47)` resp. `zlib.decompress(x)` / `brotli.decompress(x)` / `zstd.decompress(x)`,
+    `lib2` = `zlib.decompress(x, -15)` (only `decode_deflate` falls back to it).
+    Transcribed: `if not content: return b""` in all four, the `try … except zlib.error: <raw deflate>` of
+    `decode_deflate`; a library error surfaces as ValueError (`verr`). -/
+def ownDecodeWith (fn : DecFn) (x : Bytes) (lib1 lib2 : Option Bytes) : Res :=
+  match fn with
+  | .identity => .ok x
+  | .deflate =>
+    if x.isEmpty then .ok []
+    else match lib1 with
+      | some d => .ok d
+      | none => match lib2 with
+        | some d => .ok d
+        | none => .verr
+  | _ =>
+    if x.isEmpty then .ok []
+    else match lib1 with
+      | some d => .ok d
+      | none => .verr
+
+/-- the compression libraries proper (zlib / brotli / zstd), per lower-cased coding name: a total compressor, the
+    decoder call mitmproxy's wrapper makes, and raw-deflate inflation.  Two laws only. -/
+structure Lib where
+  compress : (n d : Bytes) → Bytes
+  decompress : (n x : Bytes) → Option Bytes
+  inflateRaw : Bytes → Option Bytes
+  /-- the library decoder inverts the library encoder -/
+  roundtrip : ∀ n d, decompress n (compress n d) = some d
+  /-- a library decoder that accepts the empty input yields the empty output -/
+  decompress_empty : ∀ n d, decompress n [] = some d → d = []
+
+/-- uncached `custom_decode[n](x)` over a library -/
+def ownDecode (L : Lib) (n x : Bytes) : Res :=
+  match decFnOf n with
+  | some fn => ownDecodeWith fn x (L.decompress n x) (L.inflateRaw x)
+  | none => .verr
+
+/-- Python's `codecs` registry, asked for every name without a custom codec -/
+structure PyReg where
+  enc : (n e d : Bytes) → Res
+  dec : (n e x : Bytes) → Res
+  unknown_enc : ∀ n e d, kindOf n = .unknown → enc n e d = .verr
+  unknown_dec : ∀ n e x, kindOf n = .unknown → dec n e x = .verr
+
+/-- toy library: `compress d = 1 :: d`, strict `decompress (1 :: d) = d`, raw inflation accepts `2 :: d` -/
+def toyLib : Lib where
+  compress := fun _ d => 1 :: d
+  decompress := fun _ x => match x with | b :: d => if b = 1 then some d else none | [] => none
+  inflateRaw := fun x => match x with | b :: d => if b = 2 then some d else none | [] => none
+  roundtrip := by intro n d; simp
+  decompress_empty := by intro n d h; simp at h
+
+def toyPy : PyReg where
+  enc := fun n _ d => match kindOf n with | .pybytes => .ok d | .pytext => .terr | _ => .verr
+  dec := fun n _ x => match kindOf n with | .pybytes => .ok x | .pytext => .str | _ => .verr
+  unknown_enc := by intro n e d h; simp [h]
+  unknown_dec := by intro n e x h; simp [h]
+
 end MitmVerif.C31
